@@ -27,6 +27,12 @@ for D in "$WT"/SEEDED/m*; do
     grep -q "panicked at /rustc" /tmp/seed-$P-$K-suite.log && continue   # compiler ran out of threads
     grep -E "^test .* FAILED" /tmp/seed-$P-$K-suite.log | grep -v drain_into_test_zero_sized | grep -q . && break
   done
+  # only the load flake left: that one test alone, up to five attempts (every other test passed above)
+  if [ $SU -ne 0 ] && ! grep -E "^test .* FAILED" /tmp/seed-$P-$K-suite.log | grep -v drain_into_test_zero_sized | grep -q . && grep -q "drain_into_test_zero_sized ... FAILED" /tmp/seed-$P-$K-suite.log; then
+    for ATT in 1 2 3 4 5; do
+      timeout 300 cargo test --offline --test sync_test drain_into_test_zero_sized > /tmp/seed-$P-$K-flake.log 2>&1 && { SU=0; break; }
+    done
+  fi
   timeout 300 cargo build --offline --features verif > /tmp/seed-$P-$K-verifbuild.log 2>&1; VB=$?
   cp /tmp/seed-$P-$K-demo.rs "$DEMO"
   timeout 600 $RUN > /tmp/seed-$P-$K-patched.log 2>&1; PA=$?
